@@ -77,6 +77,11 @@ type Case struct {
 	// C08: per subscriber the Sends of phase 2 (1-based ordinal) that block, and for how
 	// many further writes (0 = for ever)
 	Plan [][]Block `json:"plan,omitempty"`
+	// C08 family walk-stall: Bulk leaves t1/a/n<k> are written before anything else; the very
+	// first Send of subscriber WalkStall (its initial walk is under way or just over) blocks
+	// until the run ends
+	Bulk      int `json:"bulk,omitempty"`
+	WalkStall int `json:"walk_stall"`
 	// C08 family acl-quiet: targets the RPC's ACL hides; after a write to one of them (and
 	// after every subscription start) the harness stays quiet for 3 timeouts
 	Hidden []string `json:"hidden,omitempty"`
